@@ -14,12 +14,12 @@ import (
 )
 
 type fileSpec struct {
-	level  int
-	seq    int
-	ts     int
-	keys   [2]bool   // which universe keys it contains
-	tomb   [2]bool   // tombstone?
-	val    [2][]byte // value otherwise
+	level int
+	seq   int
+	ts    int
+	keys  [2]bool   // which universe keys it contains
+	tomb  [2]bool   // tombstone?
+	val   [2][]byte // value otherwise
 }
 
 // view: newest entry for key ki over the files; recency: lower level newer, within a level the later creation
